@@ -36,7 +36,7 @@ ASSUMPTIONS = ["fault cases run in a worker interpreter; a dead worker is a viol
                "its journal, never a hang (subprocess timeout)",
                "texts outside the stated domain are filtered by predicate on the text (they are C04's)"]
 FLOORS = {"quick": {"docs_compared": 500, "docs_with_multibyte_neighbour": 300, "ref_candidates": 3000,
-                    "citation_level_compared": 150, "pattern_members_compared": 6000,
+                    "citation_level_compared": 150, "pattern_members_compared": 25000,
                     "fault_cases": 300, "fault:truncate": 100, "fault:bitflip_header": 100,
                     "fault:byte_body": 30, "fault:garbage": 5, "fault:append": 5, "fault:empty": 1,
                     "fault:version_field": 4, "fault:crash_during_write": 5, "fault:dir_state": 2,
@@ -56,7 +56,8 @@ PROBES = ["See Pub. L. No. 94-553 §§ 1-2 and more.", "“1 U.S. 1”", "é1 U.
 
 def plan(tier, seed):
     n = SHARDS[tier]
-    specs = [dict(i=i, nshards=n, ndoc=NDOC[tier], seed=seed * 1000 + i, part="compare", probes=(i == 0))
+    specs = [dict(i=i, nshards=n, ndoc=NDOC[tier], seed=seed * 1000 + i, part="compare", probes=(i == 0),
+                  cover=(6 if tier == "quick" else 60))
              for i in range(n)]
     specs += [dict(i=i, nshards=n, seed=seed * 1000 + 100 + i, part="faults", tier=tier) for i in range(n)]
     specs += [dict(i=i, nshards=4, seed=seed * 1000 + 200 + i, part="fullfaults", tier=tier) for i in range(4)]
@@ -258,19 +259,20 @@ def run_compare(spec, rec):
     # W1: every extractor pattern of the database (sharded): the candidates the pattern itself finds in
     # one of its members must be among Hyperscan's candidates (clause (a) restricted to one pattern, which
     # is cheap enough to be database-exhaustive; pattern conversion errors hide in rare templates)
-    from vmon.rxgen import sample
+    from vmon.rxgen import cover
     for idx, e in enumerate(EXTRACTORS):
         if idx % spec["nshards"] != spec["i"]:
             continue
-        for _t in range(4):
-            try:
-                # wildcards and negated classes of the pattern are filled with ASCII only: a multi-byte
-                # character matched by '.' or [^...] is one *byte* for a byte-oriented engine, i.e. the
-                # engines' classes do not coincide on such a token (outside the domain); the literal
-                # multi-byte characters of the patterns (section and paragraph signs) are produced
-                s = sample(e.regex, rng, e.flags, ascii_only=True)
-            except Exception:
-                break
+        # wildcards and negated classes of the pattern are filled with ASCII only: a multi-byte
+        # character matched by '.' or [^...] is one *byte* for a byte-oriented engine, i.e. the
+        # engines' classes do not coincide on such a token (outside the domain); the literal
+        # multi-byte characters of the patterns (section and paragraph signs) are produced.
+        # Members come with branch coverage of the pattern (every alternative at least once).
+        try:
+            pool = list(cover(e.regex, rng, e.flags, max_samples=spec.get("cover", 6), ascii_only=True))
+        except Exception:
+            pool = []
+        for s in pool:
             if not gen.ascii_ws_domain(s) or not e.compiled_regex.search(s):
                 continue
             s = rng.choice(["", "See "]) + s + rng.choice(["", " and so on."])
@@ -279,7 +281,7 @@ def run_compare(spec, rec):
                 have = {tkey(x) for x in hs.extract_tokens(s)}
             except Exception as x:
                 rec.violation("C14.hyperscan_raised." + type(x).__name__, dict(text=s), observed=str(x)[:200])
-                break
+                continue
             rec.ev()
             rec.count("pattern_members_compared")
             for k, t in want.items():
@@ -292,7 +294,6 @@ def run_compare(spec, rec):
                               observed=dict(token=M.ser_token(t), touches_multibyte=False,
                                             pattern_has_multibyte_in_class=multibyte_class_pattern(s, t, by_type),
                                             context=s[max(0, t.start - 3):t.end + 3]))
-            break
 
 
 # ---------------------------------------------------------------- (d) cache faults
